@@ -161,7 +161,7 @@ theorem cl_cstateComplete : (describeClauses P P' RS).cstateComplete = true := b
 theorem cl_cstateRemoved : (describeClauses P P' RS).cstateRemoved = true := by
   simp only [describeClauses, toReports_parts, lookC, resParts_deleted, List.all_eq_true, Bool.or_eq_true, List.contains_eq_mem,
     decide_eq_true_eq]
-  intro s hs; exact F.cstateRemoved s hs
+  intro s hs; exact .inl (F.cstateRemoved s hs)
 
 theorem cl_cstateStable : (describeClauses P P' RS).cstateStable = true := by
   simp only [describeClauses, lookC, List.all_eq_true]
@@ -180,7 +180,7 @@ theorem cl_ctxUpdateLists : (describeClauses P P' RS).ctxUpdateLists = true := b
       intro c hc
       by_cases e : c.dh = d.handle
       · right
-        obtain ⟨x, hx, e1, e2⟩ := F.ctxUpdateLists d hd hk c hc e
+        obtain ⟨x, hx, e1, e2⟩ := F.ctxUpdateLists d hd hk c (List.mem_append_right _ hc) e
         exact ⟨x, by rw [flat_cstates]; exact List.mem_filter.2 ⟨hx, by simpa using e2⟩, e1, e2⟩
       · exact .inl e
     · simp [hk]
